@@ -9,7 +9,7 @@ PROPS = {
                 explanation="factor value law v' = v*scale(src)/scale(dst), apply_conversion, Rational::pow, prefix constants, conversion laws as lemmas; OP_CAST arm bounded"),
     "C04": dict(units=["COMPOUND", "EVALOPS"], standin=True, level="proof",
                 explanation="Compound::mul / reconstruct / inner_match / pow preserve (value*scale, dims); eval::{mul,div,pow}; bases_match assumed (FnMut closure through Iterator::all)"),
-    "C05": dict(units=["TABLES", "COMPOUND"], standin=True, level="proof",
+    "C05": dict(units=["TABLES", "COMPOUND", "EVALUNIT"], standin=True, level="proof",
                 explanation="dimension closure and conversion fraction of each of the 78 derived units and the 21 prefix constants against standards.toml"),
     "C10": dict(units=["RAT", "EVALOPS"], standin=True, level="proof",
                 explanation="Rational::{floor,ceil,round}, builtin::{one,floor,ceil,round} against floor/ceil/half-away-from-zero definitions; FN_CALL arm bounded"),
@@ -27,7 +27,7 @@ PROPS = {
                 explanation="bounded enumeration of operator sequences x parenthesisations x blank layouts against an independent precedence-climbing evaluator; proved components: op() priority table, skip bookkeeping of Parser::{count_skip,skip,eat}, operation()/value()/call_arguments() skip contracts"),
     "C08": dict(units=["DISPLAYCORE"], standin=True, level="exploration",
                 explanation="bounded read-back contract over a grid of values x limits x exponent limits; proved core: the emit digit step is exact long division (digit <= 9, remainder stays below the denominator) and digits() is the decimal magnitude"),
-    "C11": dict(units=["POWERS", "RAT", "COMPOUND", "EVALOPS", "LEXER", "PARSER", "GRAMMAR", "FROMSTR", "DISPLAYCORE"], standin=True, level="proof",
+    "C11": dict(units=["POWERS", "RAT", "COMPOUND", "EVALOPS", "EVALUNIT", "LEXER", "PARSER", "GRAMMAR", "FROMSTR", "DISPLAYCORE"], standin=True, level="proof",
                 explanation="absence of overflow / failed assertion (former debug_assert!) / unwrap / out-of-bounds in every function under contract, under the stated bounds; error spans are token boundaries (LEXER + PARSER); eval() driver, Db::lookup, Display and the CLI are a bounded token-soup stand-in"),
 }
 
@@ -45,6 +45,7 @@ SHIM_TRUST = {
     "shims/vec_iter.rs": "by-value Vec iteration yields the elements in order",
     "shims/unit_shim.rs": "ConversionMethods opaque; R6 outlines call_methods_to/from, call_vtable_powers (adds power*derived_dim, assumed-by-table: proved per closure in unit TABLES), Unit::conversion = table entry with non-zero fraction (assumed-by-table)",
     "shims/peekable_bytes.rs": "std Peekable<Bytes>: peek/next yield the remaining bytes in order (assume_specification); R6 outline of `number.bytes().peekable()` yields the UTF-8 bytes of the str; str_bytes is uninterpreted",
+    "shims/syntree_node.rs": "syntree Node/Children as a sequence of UNode {kind, span, int, units, units_ok}; R6 outlines: str::parse::<i32> on a node's text (int), the text of a WORD node, &str -> Box<str>; UnitParser (4-line wrapper over the logos-generated generated::unit::parse) assumed to yield the node's (prefix, unit) pairs in order; Result::transpose",
     "shims/syntree_span.rs": "syntree::Span<u32> as plain data; LookupError / ParseIntError / syntree::Error opaque",
 }
 
